@@ -31,25 +31,29 @@ def check_fill_helpers(run, db):
         n += 1
         inst = '%s [%s]' % (f.display, db.config)
         roles = {0: 'memory', 1: 'node_size', 2: 'fence_size'}
-        S = [s for s in fwd.summarize(f, db=db, roles=roles, no_forward=True) if s.end == 'return']
+        # a closure defined and called in the function itself is part of it
+        S = [s for s in fwd.summarize(f, db=db, roles=roles, no_forward=True,
+                                      inline_pred=lambda a, c, t: c.kind == 'lambda' and c.rec.get('parent_fn') == a.key) if s.end == 'return']
         probs = []
         if not S:
             probs.append('no normal path')
+        fence_on = bool(build.CONFIGS[db.config]['FOONATHAN_MEMORY_DEBUG_FENCE'])
         for s in S:
-            # fence_size may have been forced to 0 on this path
-            fs = '0' if any(w[0] == '$fence_size' and w[1] == '0' for w in s.writes) else '$fence_size'
+            # by value: the fence size in effect is the parameter when fences are compiled in, 0 otherwise (forced by an assignment,
+            # a ternary or an if - whatever the spelling)
+            fs = '$fence_size' if fence_on else '0'
+            F = {'$fence_size': 1} if fence_on else {}
             fills = [c[0] for c in s.calls if c[1].get('short') == 'debug_fill']
             tests = [c for c in s.calls if c[1].get('short') == 'debug_is_filled']
             handlers = [c for c in s.calls if c[1].get('indirect') and 'get_buffer_overflow_handler' in c[0]]
             if not any(x.startswith('debug_fill($memory,$node_size,g:debug_magic::freed_memory') for x in fills):
                 probs.append('the node is not filled with the freed pattern')
-            want_pre = 'debug_is_filled(($memory - %s),%s,g:debug_magic::fence_memory)' % (fs, fs)
-            want_post = 'debug_is_filled(($memory + $node_size),%s,g:debug_magic::fence_memory)' % fs
-            alt_post = 'debug_is_filled(($node_size + $memory),%s,g:debug_magic::fence_memory)' % fs
             got = [c[0] for c in tests]
-            if want_pre not in got:
+            sig = [(linear.lin(c.sub['args'][0], roles), linear.lin(c.sub['args'][1], roles), sym.canon(c.sub['args'][2], roles))
+                   for c in tests if len(c.sub.get('args', [])) == 3]
+            if (linear.sub({'$memory': 1}, F), F, 'g:debug_magic::fence_memory') not in sig:
                 probs.append('the fence before the node is not tested (%s)' % got)
-            if want_post not in got and alt_post not in got:
+            if ({'$memory': 1, '$node_size': 1}, F, 'g:debug_magic::fence_memory') not in sig:
                 probs.append('the fence after the node is not tested (%s)' % got)
             # each dirty result -> handler(memory, node_size, dirty)
             for c, tk in s.conds:
@@ -61,7 +65,7 @@ def check_fill_helpers(run, db):
                 if 'debug_is_filled(' in c and not tk:
                     if any(h[0].endswith(',%s)' % c) for h in handlers):
                         probs.append('the handler is called for an intact fence')
-            if s.ret != '($memory - %s)' % fs:
+            if s.ret_term is None or linear.lin(s.ret_term, roles) != linear.sub({'$memory': 1}, F):
                 probs.append('returns %s, not the start of the front fence' % s.ret)
         _emit(run, 'R-FILL.free', f, db, probs, 'fills freed, tests both fences, reports the first corrupted byte, returns memory - fence',
               {'function': 'detail::debug_fill_free', 'role': 'fence verification'})
@@ -253,8 +257,14 @@ def check_lowlevel(run, db):
                 if ct == 'detail::lowlevel_allocator':
                     al = [c for c in s.calls if c[1].get('short') == 'allocate' and c[1].get('static')]
                     amt = fwd_args(al[0][0], 'allocate')[0] if al else None
-                    want = {'($size + (g:detail::debug_fence_size ? (2 * %s) : 0))' % fa, '((g:detail::debug_fence_size ? (2 * %s) : 0) + $size)' % fa}
-                    if amt not in want:
+                    # by value: size + (fence ? 2*F : 0) when the path has not decided whether fences are on (the ternary spelling),
+                    # size + 2*F / size when it has (an if, or a helper returning one or the other; the constant decides in this configuration)
+                    rl = {0: 'size', 1: 'alignment'}
+                    la = linear.lin(al[0].sub['args'][0], rl) if al and al[0].sub.get('args') else None
+                    fence_on = bool(build.CONFIGS[db.config]['FOONATHAN_MEMORY_DEBUG_FENCE'])
+                    tern = '(g:detail::debug_fence_size ? (2 * %s) : 0)' % fa
+                    accepted = [{'$size': 1, tern: 1}, {'$size': 1, fa: 2} if fence_on else {'$size': 1}]
+                    if la not in accepted:
                         probs.append('allocates %s bytes; with fences of %s on both sides it must be size + 2*fence (when fences are on)' % (amt, fa))
             for s in SD:
                 ff = [c for c in s.calls if c[1].get('short') == 'debug_fill_free']
@@ -344,28 +354,52 @@ def check_stack_and_arena(run, db):
     n = 0
     for f in db.find(cls_t='detail::fixed_memory_stack', short='allocate_unchecked'):
         n += 1
-        S = [s for s in fwd.summarize(f, db=db, roles={0: 'size', 1: 'align_offset', 2: 'fence_size'}, no_forward=True) if s.end == 'return']
+        # decided on the effects with the class's own helpers (bump, bump_return, ...) inlined: four fills at consecutive addresses
+        # starting at the old cursor, the returned address is where the new-memory fill starts, the cursor ends behind the last fill
+        roles = {0: 'size', 1: 'align_offset', 2: 'fence_size'}
+        S = [s for s in fwd.summarize(f, db=db, roles=roles, no_forward=True, inline_pred=lambda a, c, t: c.cls == a.cls and c.key != a.key)
+             if s.end == 'return']
         probs = []
+        want = [('$fence_size', 'g:debug_magic::fence_memory'), ('$align_offset', 'g:debug_magic::alignment_memory'),
+                ('$size', 'g:debug_magic::new_memory'), ('$fence_size', 'g:debug_magic::fence_memory')]
         for s in S:
-            b = [c[0] for c in s.calls if c[1].get('short') in ('bump', 'bump_return')]
-            want = ['this.bump($fence_size,g:debug_magic::fence_memory)', 'this.bump($align_offset,g:debug_magic::alignment_memory)',
-                    'this.bump_return($size,g:debug_magic::new_memory)', 'this.bump($fence_size,g:debug_magic::fence_memory)']
-            if b != want:
-                probs.append('bumps are %s' % b)
-            if s.ret != 'this.bump_return($size,g:debug_magic::new_memory)':
+            fills = [c for c in s.calls if c[1].get('short') == 'debug_fill' and len(c.sub.get('args', [])) == 3]
+            got = [(sym.canon(c.sub['args'][1], roles), sym.canon(c.sub['args'][2], roles)) for c in fills]
+            if got != want:
+                probs.append('fills are %s' % got)
+                continue
+            at = {'this.cur_': 1}
+            new_at = None
+            for c, (sz, mg) in zip(fills, want):
+                if linear.lin(c.sub['args'][0], roles) != at:
+                    probs.append('the %s fill starts at [%s], not at [%s] where the previous part ends' % (mg.split('::')[-1], linear.fmt(linear.lin(c.sub['args'][0], roles)), linear.fmt(at)))
+                if mg.endswith('new_memory'):
+                    new_at = dict(at)
+                at = linear._add(at, {sz: 1}, 1)
+            if s.ret_term is None or linear.lin(s.ret_term, roles) != new_at:
                 probs.append('returns %s, not the start of the new-memory part' % s.ret)
+            if 'this.cur_' not in s.fields or linear.lin(s.fields['this.cur_'], roles) != at:
+                probs.append('the cursor does not end behind the back fence')
+        if not S:
+            probs.append('no returning path')
         _emit(run, 'R-FILL.stack', f, db, probs, 'fence, alignment, new (returned), fence', {'function': 'detail::fixed_memory_stack::allocate_unchecked', 'role': 'fill order'})
     for f in db.find(cls_t='memory_arena'):
         if f.short not in ('allocate_block', 'deallocate_block') or f.params:
             continue
         n += 1
         want_flag = 'false' if f.short == 'allocate_block' else 'true'
-        fills = [t for e, t in flow.call_events(f) if t.get('short') == 'debug_fill_internal']
         probs = []
-        if len(fills) != 1 or sym.canon(fills[0]['args'][2]) != want_flag:
-            probs.append('block is not marked %s' % ('internal' if want_flag == 'false' else 'internal-freed'))
-        elif not flow.must_pass_through(f, lambda e: top_term(e) is fills[0]):
-            probs.append('block is not marked on every path')
+        S = [s for s in fwd.summarize(f, db=db, roles={}, no_forward=True, inline_pred=common.inline_private) if s.end == 'return']
+        if not S:
+            probs.append('no returning path')
+        for s in S:
+            fills = [c for c in s.calls if c[1].get('short') == 'debug_fill_internal' and len(c.sub.get('args', [])) == 3]
+            if len(fills) != 1 or sym.canon(fills[0].sub['args'][2]) != want_flag:
+                probs.append('block is not marked %s%s' % ('internal' if want_flag == 'false' else 'internal-freed', '' if len(S) == 1 or not fills else ' on every path'))
+                continue
+            a0, a1 = sym.canon(fills[0].sub['args'][0]), sym.canon(fills[0].sub['args'][1])
+            if not (a0.endswith('.memory') and a1.endswith('.size') and a0[:-len('.memory')] == a1[:-len('.size')]):
+                probs.append('the marked range (%s, %s) is not one block' % (a0, a1))
         _emit(run, 'R-FILL.arena', f, db, probs, 'debug_fill_internal(block.memory, block.size, %s)' % want_flag,
               {'function': 'memory_arena::' + f.short, 'role': 'internal marking'})
     return n
